@@ -28,6 +28,10 @@ ALWAYS_FAIL = {"test_ECDH_ES_with_EC_key", "test_import_p512_key", "test_ec_inco
 PROPS = ["C%02d" % i for i in range(1, 21)]
 SKIP_FILES = {"errors.py", "__init__.py"}
 OPS2 = "--ops2" in sys.argv
+OPS3 = "--ops3" in sys.argv
+ATTR_SIBLINGS = [("protected", "header"), ("protected", "unprotected"), ("unprotected", "header"), ("recipient_key", "sender_key"), ("private_key", "public_key"),
+                 ("payload", "segments"), ("bytes_segments", "base64_segments"), ("raw_value", "original_value"), ("dict_value", "_dict_value"),
+                 ("key_size", "cek_size"), ("iv_size", "tag_size"), ("allowed", "recommended"), ("now", "leeway"), ("essential", "allow_blank")]
 
 CMP_SWAP = {ast.Lt: [ast.LtE, ast.Gt], ast.LtE: [ast.Lt], ast.Gt: [ast.GtE, ast.Lt], ast.GtE: [ast.Gt], ast.Eq: [ast.NotEq], ast.NotEq: [ast.Eq],
             ast.In: [ast.NotIn], ast.NotIn: [ast.In], ast.Is: [ast.IsNot], ast.IsNot: [ast.Is]}
@@ -76,6 +80,9 @@ def mutants_of(path):
         par = parents.get(id(n))
         # annotations / type aliases / __all__ are not behaviour
         if isinstance(par, (ast.AnnAssign,)) and par.annotation is n:
+            continue
+        if OPS3:
+            _ops3(n, par, parents, add)
             continue
         if OPS2 and not isinstance(n, (ast.Call, ast.Name)):
             continue
@@ -164,6 +171,64 @@ def mutants_of(path):
             seen.add(k)
             uniq.append(m)
     return uniq
+
+
+def _ops3(n, par, parents, add):
+    """third operator family (--ops3): adjacent statement swaps, a local replaced by another local, `return None`, slice bounds +-1,
+    loops over all but the first / last element, sibling attributes"""
+    def func_of(x):
+        f = x
+        while f is not None and not isinstance(f, (ast.FunctionDef, ast.AsyncFunctionDef)):
+            f = parents.get(id(f))
+        return f
+    simple = (ast.Assign, ast.AnnAssign, ast.AugAssign, ast.Expr)
+    for fld in ("body", "orelse", "finalbody"):
+        body = getattr(n, fld, None)
+        if isinstance(body, list) and body and isinstance(body[0], ast.stmt) and not isinstance(n, (ast.Module, ast.ClassDef)):
+            for a, b in zip(body, body[1:]):
+                if isinstance(a, simple) and isinstance(b, simple) and not (isinstance(a, ast.Expr) and isinstance(a.value, ast.Constant)):
+                    # swap the two statements (text of both lines, same indentation)
+                    fake = ast.If(test=ast.Constant(value=True), body=[b, a], orelse=[])
+                    ind = " " * a.col_offset
+                    txt = ("\n" + ind).join(ast.unparse(x).replace("\n", "\n" + ind) for x in (b, a))
+                    span = ast.Expr(value=ast.Constant(value=0))
+                    span.lineno, span.col_offset, span.end_lineno, span.end_col_offset = a.lineno, a.col_offset, b.end_lineno, b.end_col_offset
+                    add(span, txt, "stmt-swap")
+    if isinstance(n, ast.Return) and n.value is not None and not isinstance(n.value, ast.Constant):
+        add(n.value, "None", "return-none")
+    if isinstance(n, ast.Subscript) and isinstance(n.slice, ast.Slice) and isinstance(n.ctx, ast.Load):
+        sl = n.slice
+        for which in ("lower", "upper"):
+            v = getattr(sl, which)
+            for d in (1, -1):
+                nv = ast.BinOp(left=v, op=ast.Add() if d > 0 else ast.Sub(), right=ast.Constant(value=1)) if v is not None else \
+                    (ast.Constant(value=1) if which == "lower" and d > 0 else (ast.UnaryOp(op=ast.USub(), operand=ast.Constant(value=1)) if which == "upper" and d < 0 else None))
+                if nv is None:
+                    continue
+                if isinstance(v, ast.Constant) and isinstance(v.value, int):
+                    nv = ast.Constant(value=v.value + d)
+                s2 = ast.Slice(lower=nv if which == "lower" else sl.lower, upper=nv if which == "upper" else sl.upper, step=sl.step)
+                add(n, ast.unparse(ast.Subscript(value=n.value, slice=s2, ctx=ast.Load())), f"slice-{which}{'+' if d > 0 else '-'}1")
+    if isinstance(n, (ast.For, ast.comprehension)) and isinstance(n.iter, (ast.Name, ast.Attribute)):
+        add(n.iter, ast.unparse(n.iter) + "[1:]", "iter-skip-first")
+        add(n.iter, ast.unparse(n.iter) + "[:-1]", "iter-skip-last")
+    if isinstance(n, ast.Attribute) and isinstance(n.ctx, ast.Load):
+        for a, b in ATTR_SIBLINGS:
+            for x, y in ((a, b), (b, a)):
+                if n.attr == x:
+                    add(n, ast.unparse(n.value) + "." + y, f"attr:{x}->{y}")
+    if isinstance(n, ast.Name) and isinstance(n.ctx, ast.Load) and isinstance(par, (ast.Call, ast.Return, ast.keyword, ast.Compare, ast.Subscript)):
+        f = func_of(par)
+        if f is not None:
+            ps = {a.arg for a in f.args.args + f.args.kwonlyargs}
+            locs = []
+            for x in ast.walk(f):
+                if isinstance(x, ast.Name) and isinstance(x.ctx, ast.Store) and x.id not in locs and x.id not in ps:
+                    locs.append(x.id)
+            if n.id in locs:
+                for other in locs:
+                    if other != n.id:
+                        add(n, other, f"local-swap:{n.id}->{other}")
 
 
 def run(cmd, cwd=None, env=None, timeout=600):
